@@ -708,6 +708,7 @@ def has(f, *alternatives):
 
 def f16_runtime_layout(ctx, L):
     """Layout attributes are computed from the documented inputs through the documented aggregators."""
+    partial_alignment_owner(ctx, L)
     gen = ctx.py.mod('prophy.generators')
     f = gen.func('struct_generator.add_attributes')
     checks = [
@@ -1278,3 +1279,34 @@ def authored(f, params, locals_by_value=(), loop_targets=()):
     shim = _ModuleShim(f.module, node)
     g = Func(shim, f.qualname, node, f.parent, f.cls)
     return g
+
+
+# ------------------------------------------------------------------------------------------------ per-field type objects
+def partial_alignment_owner(ctx, L):
+    """struct_generator.add_attributes stores the block alignment of a dynamic field on the field's *type object*
+    (`type_._PARTIAL_ALIGNMENT = alignment`). That is only sound if the type object belongs to this one field:
+    (1) the store is reached only for array / bytes types (named struct classes are shared by every struct embedding them);
+    (2) the array and bytes factories build a fresh class on every call (no cache of returned classes)."""
+    gen = ctx.py.mod('prophy.generators')
+    f = gen.func('struct_generator.add_attributes')
+    stores = [a for a in f.walk() if isinstance(a, ast.Assign) and any(isinstance(t, ast.Attribute) and t.attr == '_PARTIAL_ALIGNMENT'
+                                                                      and not unparse(t.value) == 'cls' for t in a.targets)]
+    L.check(len(stores) >= 1, 'F16.per-field-type', 'add_attributes|store-present', f.site(), 'the block alignment is stored on the dynamic field type', '')
+    for a in stores:
+        tv = unparse([t for t in a.targets if isinstance(t, ast.Attribute)][0].value)
+        ok = knows(f, a, 'issubclass(%s, (base_array, bytes))' % tv, True, [])
+        L.check(ok, 'F16.per-field-type', 'add_attributes|%s' % norm_key(f, a), f.site(a),
+                '`%s._PARTIAL_ALIGNMENT` is written on a path that does not establish that the type is an array / bytes type created for '
+                'this one field: a named struct class is shared by all structs embedding it, the last one defined overwrites the block '
+                'alignment of the others (and struct padding is computed relative to the struct start on encode, on absolute positions '
+                'on decode); known there: %s' % (tv, sorted(facts(f, a))), ws(unparse(a)))
+    for modname, q in (('prophy.composite', 'bytes_'), ('prophy.container', 'array')):
+        g = ctx.py.mod(modname).func(q)
+        classes = set(s.name for s in g.node.body if isinstance(s, ast.ClassDef)) | \
+            set(s.name for st in g.node.body for s in ast.walk(st) if isinstance(s, ast.ClassDef))
+        rets = [r for r in g.walk() if isinstance(r, ast.Return)]
+        bad = [r for r in rets if not (isinstance(r.value, ast.Name) and r.value.id in classes)]
+        L.check(bool(rets) and not bad, 'F16.per-field-type', '%s|fresh-class' % q, g.site(bad[0] if bad else None),
+                '%s() must return the class it has just defined (a fresh type object per field declaration): a cached / shared class '
+                'carries the _PARTIAL_ALIGNMENT (block alignment) of whichever struct was defined last' % q,
+                ws(unparse(bad[0])) if bad else '')
